@@ -172,8 +172,12 @@ def get_type_graph(t: type) -> graphlib.TopologicalSorter[TypeNode]:
                 )
                 visited.add(node.type)
                 # A type reached through an alias or NewType has been seen as well.
-                if inspection.ishashable(unwrapped):
+                #   (`ishashable` would inspect the instance hash of a class, which is
+                #   `None` for every dataclass with `eq=True`.)
+                try:
                     visited.add(unwrapped)
+                except TypeError:
+                    pass
                 stack.append(node)
             # Flag the type as a "predecessor" of the parent type.
             #   This lets us resolve child types first when we iterate over the graph.
